@@ -83,6 +83,58 @@ pub struct Modes {
     pub justify: bool,
     pub untracked_rule: bool,
     pub ts_identity: bool,
+    pub lru: bool,
+    pub intern: bool,
+}
+
+#[derive(Clone, Debug)]
+struct Occ {
+    t: usize,
+    v: u32,
+    id: u64,
+    last_use: u64,
+    /// certainly not reclaimable: interned outside a query or by a query whose durability so
+    /// far was certainly above LOW
+    durable: bool,
+}
+
+/// Retention / canonicity model of the interned types It1, It2, It3, ItInf.
+#[derive(Default)]
+struct InternModel {
+    /// revisions (> 1) with any activity at all: superset of the revisions salsa records as active
+    active_upper: Vec<u64>,
+    /// per type: revisions with an interning/validation event of that type (subset)
+    active_lower: [Vec<u64>; 4],
+    slot: HashMap<u32, Occ>,
+    val2slot: HashMap<(usize, u32), u32>,
+    /// ids for which a DidInternValue / DidReuseInternedValue event was just seen (cold path)
+    fresh_ids: BTreeSet<u64>,
+}
+
+const IT_REVS: [usize; 4] = [1, 2, 3, usize::MAX];
+
+fn it_type(name: &str) -> Option<usize> {
+    match name {
+        "It1" => Some(0),
+        "It2" => Some(1),
+        "It3" => Some(2),
+        "ItInf" => Some(3),
+        _ => None,
+    }
+}
+
+/// List model of `Lru` (record_use on every fetch, pop-front eviction at revision start / trigger).
+#[derive(Default)]
+struct LruModel {
+    cap: usize,
+    list: Vec<LKey>,
+    /// keys whose value the model predicts to be evicted and not yet recomputed
+    evicted: BTreeSet<LKey>,
+    /// keys predicted to hold a value
+    cached: BTreeSet<LKey>,
+    /// an evicted key just finished executing: the enclosing operation must be a fetch of it
+    pending_fetch: Option<(LKey, usize)>,
+    relax: bool,
 }
 
 pub struct ReuseOracle {
@@ -107,6 +159,8 @@ pub struct ReuseOracle {
     /// structs dropped by a re-executed creator in the current step: must be discarded
     expect_discard: BTreeSet<u64>,
     seen_discard: BTreeSet<(String, u64)>,
+    lru: LruModel,
+    im: InternModel,
 }
 
 fn dmin(a: Option<u8>, b: Option<u8>) -> Option<u8> {
@@ -147,6 +201,8 @@ impl ReuseOracle {
             execs: 0,
             expect_discard: BTreeSet::new(),
             seen_discard: BTreeSet::new(),
+            lru: LruModel { cap: 4, ..Default::default() },
+            im: InternModel::default(),
         }
     }
 
@@ -183,6 +239,14 @@ impl ReuseOracle {
                 }
                 if let LKey::Node(n, _) = lk {
                     if self.prog.nodes[*n].kind.is_multi() && self.any_reuse.iter().any(|x| *x > t) {
+                        return true;
+                    }
+                }
+                // an evicted callee whose own dependencies changed reports "changed" without
+                // being recomputed (its old value is gone, so it cannot be compared)
+                if self.modes.lru && self.lru.evicted.contains(lk) && !c.untracked {
+                    let tc = c.validated_at;
+                    if c.reads.iter().any(|r| self.changed_since(r, tc)) {
                         return true;
                     }
                 }
@@ -243,10 +307,13 @@ impl ReuseOracle {
         let kind = self.prog.nodes[node].kind;
         let skey = self.pending_we.take();
         if let Some(rec) = self.recs.get(&lk) {
-            let exempt = !rec.alive || rec.untracked || matches!(kind, Kind::Lru) || kind.is_cycle_kind() || rec.hist.is_empty();
+            let exempt = !rec.alive || rec.untracked || (matches!(kind, Kind::Lru) && !self.modes.lru) || kind.is_cycle_kind() || rec.hist.is_empty();
             if self.modes.justify && !exempt {
                 let t = rec.validated_at;
-                let why = rec.reads.iter().any(|r| self.changed_since(r, t));
+                let why = rec.reads.iter().any(|r| self.changed_since(r, t)) || (self.modes.lru && self.lru.evicted.contains(&lk));
+                if self.modes.lru && self.lru.evicted.contains(&lk) {
+                    out.bump("lru_evicted_value_recomputed");
+                }
                 if why {
                     out.bump("reexec_justified");
                 } else {
@@ -299,6 +366,12 @@ impl ReuseOracle {
                 }
             }
         }
+        if self.modes.lru && fr.kind == Kind::Lru {
+            if self.lru.evicted.remove(&fr.lk) {
+                self.lru.pending_fetch = Some((fr.lk.clone(), self.frames.len()));
+            }
+            self.lru.cached.insert(fr.lk.clone());
+        }
         let dur = if fr.untracked { Some(0) } else { fr.dur };
         let rec = self.recs.entry(fr.lk.clone()).or_insert_with(|| Rec { kind: fr.kind, reads: vec![], untracked: false, validated_at: 0, hist: vec![], alive: true, created: BTreeMap::new() });
         rec.hist.push(ExecRec { t, full, dur, fresh: !existed_alive, rev: self.rev });
@@ -316,9 +389,167 @@ impl ReuseOracle {
         self.exec_rev.insert(fr.lk, self.rev);
     }
 
+    fn lru_fetch(&mut self, k: LKey, step: usize, out: &mut RunOut) {
+        if self.lru.evicted.contains(&k) {
+            out.viol("lru_evicted_value_still_cached", step, format!("{k:?} was returned without executing although the LRU model evicted its value"));
+            self.lru.evicted.remove(&k);
+        }
+        if self.lru.cap > 0 {
+            self.lru.list.retain(|x| *x != k);
+            self.lru.list.push(k);
+        }
+    }
+
+    fn lru_evict(&mut self, out: &mut RunOut) {
+        if self.lru.cap == 0 {
+            return;
+        }
+        while self.lru.list.len() > self.lru.cap {
+            let k = self.lru.list.remove(0);
+            let evictable = self.recs.get(&k).is_some_and(|r| !r.untracked) && self.lru.cached.contains(&k);
+            if evictable {
+                self.lru.cached.remove(&k);
+                self.lru.evicted.insert(k);
+                out.bump("lru_model_evictions");
+            } else {
+                out.bump("lru_model_pop_without_eviction");
+            }
+        }
+    }
+
+    fn note_active(&mut self, t: Option<usize>) {
+        let r = self.rev;
+        if r > 1 {
+            if self.im.active_upper.last() != Some(&r) {
+                self.im.active_upper.push(r);
+            }
+            if let Some(t) = t {
+                if self.im.active_lower[t].last() != Some(&r) {
+                    self.im.active_lower[t].push(r);
+                }
+            }
+        }
+    }
+
+    fn on_interned_reuse(&mut self, t: usize, id: u64, step: usize, out: &mut RunOut) {
+        let idx = (id & 0xFFFF_FFFF) as u32;
+        out.bump("intern_reuse_checked");
+        let Some(old) = self.im.slot.remove(&idx) else { return };
+        self.im.val2slot.remove(&(old.t, old.v));
+        let r = IT_REVS[t];
+        if r == usize::MAX {
+            out.viol("immortal_interned_reclaimed", step, format!("ItInf value {} (slot {idx}) was reclaimed", old.v));
+            return;
+        }
+        if old.durable {
+            out.viol("durable_interned_reclaimed", step, format!("It{} value {} (slot {idx}) was interned outside a query or by a query above LOW durability, yet its slot was reused", r, old.v));
+        }
+        let u = &self.im.active_upper;
+        if u.len() < r {
+            out.viol("interned_reclaimed_before_primed", step, format!("It{r} slot {idx} reused in revision {} although only {} revisions with any activity exist", self.rev, u.len()));
+            return;
+        }
+        let oldest_upper = u[u.len() - r];
+        if old.last_use >= oldest_upper {
+            out.viol(
+                "fresh_interned_reclaimed",
+                step,
+                format!("It{r} value {} (slot {idx}) last used in revision {} was reclaimed in revision {}; the {r} most recent revisions with any activity start at {}", old.v, old.last_use, self.rev, oldest_upper),
+            );
+        }
+        let l = &self.im.active_lower[t];
+        if l.len() >= r && old.last_use >= l[l.len() - r] {
+            out.bump("intern_reuse_exact_threshold_diagnostic");
+        }
+    }
+
+    fn on_intern_probe(&mut self, t: usize, v: u32, id: u64, in_query: bool, step: usize, out: &mut RunOut) {
+        let idx = (id & 0xFFFF_FFFF) as u32;
+        let dur_now = if in_query { self.frames.last().map(|f| if f.untracked { Some(0) } else { f.dur }).unwrap_or(None) } else { Some(3) };
+        if let Some(idx2) = self.im.val2slot.get(&(t, v)) {
+            let o = &self.im.slot[idx2];
+            if o.id != id {
+                out.viol("interned_identity_changed", step, format!("It type {t} value {v} had handle {:#x}, now {id:#x}, without its slot having been reclaimed", o.id));
+            } else {
+                out.bump("intern_identity_kept");
+            }
+        }
+        if let Some(o) = self.im.slot.get(&idx) {
+            if o.t != t || o.v != v {
+                out.viol("interned_handle_aliased", step, format!("handle {id:#x} returned for (type {t}, value {v}) while slot {idx} holds (type {}, value {})", o.t, o.v));
+            }
+        }
+        let rev = self.rev;
+        // Outside a query only the cold path (new slot / reused slot) makes a value immortal; a hit
+        // from outside a query leaves durability and last-use untouched within the revision.
+        let cold = self.im.fresh_ids.remove(&id);
+        let durable_now = if in_query { matches!(dur_now, Some(d) if d >= 1) } else { cold };
+        let o = self.im.slot.entry(idx).or_insert(Occ { t, v, id, last_use: rev, durable: false });
+        o.t = t;
+        o.v = v;
+        o.id = id;
+        o.last_use = o.last_use.max(rev);
+        o.durable |= durable_now;
+        self.im.val2slot.insert((t, v), idx);
+    }
+
     fn process(&mut self, db: &SimDatabase, step: usize, evs: &[Ev], out: &mut RunOut) {
         for e in evs {
             self.time += 1;
+            if self.modes.intern {
+                match e {
+                    Ev::Salsa { k: k @ (SK::DidIntern | SK::DidReuseInterned | SK::DidValidateInterned), ing, id, x } => {
+                        if *x != self.rev {
+                            out.bump("revision_resync");
+                            self.rev = *x;
+                        }
+                        let name = self.ing_name(db, *ing);
+                        let t = it_type(&name);
+                        self.note_active(t);
+                        if let Some(t) = t {
+                            if matches!(k, SK::DidIntern | SK::DidReuseInterned) {
+                                self.im.fresh_ids.insert(*id);
+                            }
+                            match k {
+                                SK::DidReuseInterned => self.on_interned_reuse(t, *id, step, out),
+                                SK::DidValidateInterned => {
+                                    let idx = (*id & 0xFFFF_FFFF) as u32;
+                                    let rev = self.rev;
+                                    if let Some(o) = self.im.slot.get_mut(&idx) {
+                                        o.last_use = o.last_use.max(rev);
+                                    }
+                                }
+                                _ => {}
+                            }
+                        }
+                    }
+                    Ev::Intern { t, v, id, in_query } => {
+                        self.note_active(Some(*t));
+                        self.on_intern_probe(*t, *v, *id, *in_query, step, out);
+                    }
+                    _ => self.note_active(None),
+                }
+            }
+            if self.modes.lru {
+                if let Some((k, depth)) = self.lru.pending_fetch.clone() {
+                    if self.lru.relax {
+                        // accumulated(): the DFS refreshes every transitive callee's memo, which
+                        // recomputes evicted values (they are needed, hence requested)
+                        self.lru.pending_fetch = None;
+                    } else if self.frames.len() == depth && !matches!(e, Ev::Salsa { .. } | Ev::SalsaPlain(_)) {
+                        self.lru.pending_fetch = None;
+                        let ok = matches!(e, Ev::RdCall { node, arg, .. } if LKey::Node(*node, *arg) == k);
+                        if !ok {
+                            out.viol("lru_evicted_executed_without_request", step, format!("evicted {k:?} was recomputed although it was not being requested (next event {e:?})"));
+                        }
+                    }
+                }
+                if let Ev::RdCall { node, arg, .. } = e {
+                    if self.prog.nodes[*node].kind == Kind::Lru {
+                        self.lru_fetch(LKey::Node(*node, *arg), step, out);
+                    }
+                }
+            }
             match e {
                 Ev::Salsa { k: SK::WillExecute, ing, id, .. } => {
                     self.will_execute += 1;
@@ -479,7 +710,38 @@ impl Oracle for ReuseOracle {
         }
         self.frames.clear();
         self.pending_we = None;
+        if self.modes.lru {
+            if let Some(c) = info.lru_cap {
+                self.lru.cap = c;
+                if c == 0 {
+                    self.lru.list.clear();
+                }
+            }
+            if info.new_revision || info.kind == "trigger_lru" {
+                self.lru_evict(out);
+                let cached = crate::db::lru_cached_count(db);
+                if cached != self.lru.cached.len() {
+                    out.viol("lru_cached_count_mismatch", step, format!("after revision start/trigger {cached} q_lru values are cached, the list model predicts {} (capacity {}, list {:?})", self.lru.cached.len(), self.lru.cap, self.lru.list));
+                } else if self.lru.cap > 0 && self.lru.list.len() == self.lru.cap {
+                    out.bump("lru_bound_checked_at_capacity");
+                }
+            }
+        }
+        self.lru.relax = info.kind == "accumulated";
         self.process(db, step, evs, out);
+        if self.modes.lru {
+            if let Some((k, _)) = self.lru.pending_fetch.take() {
+                let ok = self.lru.relax || matches!(info.node, Some((n, a)) if LKey::Node(n, if self.prog.nodes[n].kind.is_multi() { a } else { 0 }) == k);
+                if !ok && !(info.injected || info.expected_panic) {
+                    out.viol("lru_evicted_executed_without_request", step, format!("evicted {k:?} was recomputed although the step requested {:?}", info.node));
+                }
+            }
+            if let (Some((n, _)), true) = (info.node, info.ok) {
+                if self.prog.nodes[n].kind == Kind::Lru {
+                    self.lru_fetch(LKey::Node(n, 0), step, out);
+                }
+            }
+        }
         if info.injected || info.expected_panic {
             // an unwound body leaves open frames: drop them (no record is made)
             self.frames.clear();
